@@ -35,11 +35,11 @@ func (sh *VerifC20Shell) NewStream(id uint32, win int32) {
 	sh.streams[id] = st
 }
 
-func (sh *VerifC20Shell) SetMaxFrame(n int32)            { sh.sc.maxFrameSize = n }
-func (sh *VerifC20Shell) AddConnWindow(d int32) bool     { return sh.sc.flow.add(d) }
-func (sh *VerifC20Shell) ConnWindow() int32              { return sh.sc.flow.n }
-func (sh *VerifC20Shell) StreamWindow(id uint32) int32   { return sh.streams[id].flow.n }
-func (sh *VerifC20Shell) HasStream(id uint32) bool       { return sh.streams[id] != nil }
+func (sh *VerifC20Shell) SetMaxFrame(n int32)          { sh.sc.maxFrameSize = n }
+func (sh *VerifC20Shell) AddConnWindow(d int32) bool   { return sh.sc.flow.add(d) }
+func (sh *VerifC20Shell) ConnWindow() int32            { return sh.sc.flow.n }
+func (sh *VerifC20Shell) StreamWindow(id uint32) int32 { return sh.streams[id].flow.n }
+func (sh *VerifC20Shell) HasStream(id uint32) bool     { return sh.streams[id] != nil }
 func (sh *VerifC20Shell) AddStreamWindow(id uint32, d int32) bool {
 	return sh.streams[id].flow.add(d)
 }
@@ -109,14 +109,14 @@ type VerifC20Queue struct {
 }
 
 type VerifC20Node struct {
-	Label                     string
-	ID                        uint32
-	Weight                    uint8
-	State                     int
-	Bytes, SubtreeBytes       int64
-	Parent, Kids, Prev, Next  string
-	Frames                    []FrameWriteRequest
-	InMap                     bool
+	Label                    string
+	ID                       uint32
+	Weight                   uint8
+	State                    int
+	Bytes, SubtreeBytes      int64
+	Parent, Kids, Prev, Next string
+	Frames                   []FrameWriteRequest
+	InMap                    bool
 }
 
 type VerifC20Snap struct {
